@@ -19,7 +19,8 @@ import time
 ROOT = os.path.dirname(os.path.dirname(os.path.abspath(__file__)))
 PY = os.path.join(ROOT, '.venv', 'bin', 'python')
 PLAIN_PY = '/venv/bin/python'
-ENV = dict(os.environ, PYTHONPATH='%s:/repo' % ROOT, PYTHONDONTWRITEBYTECODE='1', PYTHONHASHSEED='0')
+REPO = os.environ.get('VERIF_REPO', '/repo').rstrip('/')
+ENV = dict(os.environ, PYTHONPATH='%s:%s' % (ROOT, REPO), PYTHONDONTWRITEBYTECODE='1', PYTHONHASHSEED='0')
 
 
 def sh(cmd, timeout):
@@ -47,7 +48,7 @@ def gate_cached(budget, jobs, log):
     """The gate depends only on the live patterns/sets, the plug-in sources and the tool
     versions; its result is cached under that key (cache is outside git)."""
     import re as _re
-    sys.path.insert(0, '/repo')
+    sys.path.insert(0, REPO)
     from vfy.plug import gate as G
     h = hashlib.sha256()
     inv = G.inventory()
@@ -109,7 +110,7 @@ def write_replay(pid, job, res):
                 'env = dict(os.environ, PYTHONPATH=%r)\n'
                 'sys.exit(subprocess.call([%r, "-m", "vfy.replay", TARGET, PARAMS, ARGS], env=env, cwd=%r))\n'
                 % (pid, job['name'], job['target'], json.dumps(job['params']), json.dumps(args),
-                   '%s:/repo' % ROOT, PLAIN_PY, ROOT))
+                   '%s:%s' % (ROOT, REPO), PLAIN_PY, ROOT))
     os.chmod(path, 0o755)
     return path
 
